@@ -55,9 +55,9 @@ CHECKS = {
     "C15": dict(level="exploration", ref="DESIGN.md §4 C15",
                 text="Seeded schedules of the real relay goroutines and the real fan-out with concurrent emitters, a numbered input stream and consumers that attach, "
                      "detach, read slowly or stop reading; oracles over the recorded history stamped with scheduler sequence numbers: exactly-once, per-emitter FIFO, "
-                     "real-time order at the port, gap-free interval per consumer with attach/detach bounds, bounded completion of DespawnOutput.",
-                note="Context stays alive (shutdown ordering is not part of the statement). One known finding (a consumer that stopped reading blocks the fan-out and "
-                     "DespawnOutput) is listed in known_findings.jsonl; it lives in its own low-weight profile so that it cannot mask anything else."),
+                     "real-time order at the port, gap-free interval per consumer with attach/detach bounds, bounded completion of DespawnOutput; a quarter of the runs use the -race binary, in which an unsynchronised access to the fan-out's outputs map (both stacks inside DynamicFanOut) is a violation.",
+                note="Context stays alive (shutdown ordering is not part of the statement). The defect found here (a consumer that stopped reading blocks the fan-out and "
+                     "DespawnOutput) was repaired in /repo; its profile is an ordinary profile now. Profiles: responsive, stalled-consumer, churn."),
     "C16": dict(level="exploration", ref="DESIGN.md §4 C16",
                 text="Seeded schedules of 1-3 real devices (event loop, MIDI-in tracker, LED loop against a fake OpenRGB server) with unplug at PRNG-chosen moments and "
                      "injected peer faults, built with -race: bounded termination, no live child goroutines, the race detector as happens-before monitor (the "
